@@ -35,6 +35,9 @@ pub struct GitScenario {
     /// the repository uses SHA-256 object names
     #[serde(default)]
     pub sha256: bool,
+    /// wall-clock faults for the monorail invocations of the history (see WorldSpec::clock_plan)
+    #[serde(default)]
+    pub clock_plan: Vec<String>,
 }
 
 impl GitScenario {
@@ -60,7 +63,7 @@ impl GitScenario {
         if self.ignore_build {
             gitignore.push("build/".to_string());
         }
-        WorldSpec { targets, cmd_files, files: self.initial.clone(), sequences: vec![], max_retained_runs: 3, gitignore, git: true, lock_host: None, default_ports: 0, omit_max_retained: false, sha256_repo: self.sha256 }
+        WorldSpec { targets, cmd_files, files: self.initial.clone(), sequences: vec![], max_retained_runs: 3, gitignore, git: true, lock_host: None, default_ports: 0, omit_max_retained: false, sha256_repo: self.sha256, clock_plan: self.clock_plan.clone() }
     }
     pub fn initial_tree(&self) -> Tree {
         let mut t = Tree::new();
@@ -119,7 +122,10 @@ fn gen_base(rng: &mut Rng, with_commands: bool, shared: bool) -> GitScenario {
     };
     // one repository in six uses SHA-256 object names (64 hex digits)
     let sha256 = (rand_seed / 8) % 6 == 0;
-    GitScenario { dirs, shared, initial, ignore_log, ignore_build, ops: vec![], rand_seed, with_commands, nofile, sha256 }
+    // one history in three runs its monorail invocations under wrong and jumping wall clocks (own generator, so that
+    // the operation lists of existing seeds stay what they were)
+    let clock_plan = if (rand_seed / 48) % 3 == 0 { crate::world::gen_clock_plan(&mut Rng::new(rand_seed ^ 0xC10C)) } else { vec![] };
+    GitScenario { dirs, shared, initial, ignore_log, ignore_build, ops: vec![], rand_seed, with_commands, nofile, sha256, clock_plan }
 }
 
 struct Exec {
